@@ -59,6 +59,13 @@ func (c *monC18) After(m *Machine, s *Step) *Violation {
 		}
 		return nil
 	}
+	// (0) a backend error inside a module handler ends the request with an error outcome
+	if r.Fired != "" && op.FK == "generic" && r.Fired != "MailRender" && r.Rec.HandlerRan && op.FA > r.Rec.CallsBeforeHandler &&
+		r.Rec.HandlerErr == nil && r.Panic == nil && r.Status < 500 &&
+		// logout looks the user up only to name it in its log line and logs out whoever it is
+		!(op.K == "logout" && r.Fired == "Load") {
+		return violation("C18", sig("backend-error-swallowed"), "%s request: backend call %d (%s) failed inside the module handler, yet the request ended without an error outcome (status %d, location %q)", op.K, op.FA, r.Fired, r.Status, r.Location)
+	}
 	before, after := r.UIDBefore(), r.UID()
 	loggedIn := after != "" && after != before
 	post := s.Post
@@ -262,7 +269,7 @@ func c18Cfg(err500 bool, emailAuth bool) harness.Config {
 			{PID: "plain@x.io", Password: "Passw0rd!A", OTPs: 2, Secondary: []string{"second@alt.io"}},
 			{PID: "totp@x.io", Password: "Passw0rd!B", TOTP: true, Recovery: 2},
 			{PID: "sms@x.io", Password: "Passw0rd!C", Phone: "+15550002", Recovery: 2},
-			{PID: "unconf@x.io", Password: "Passw0rd!D", Unconfirmed: true},
+			{PID: "unconf@x.io", Password: "Passw0rd!D", Unconfirmed: true, OTPs: 1},
 		}}
 }
 
@@ -292,6 +299,8 @@ func c18Scenarios() []c18Scenario {
 		{Name: "login-sms-account", Target: login2},
 		{Name: "login-get", Target: Op{K: "get", S: "/login"}},
 		{Name: "otplogin-ok", Target: Op{K: "otplogin", A: 0, Src: "otp", SA: 0}, After: []Op{{K: "newsess"}, {K: "otplogin", A: 0, Src: "otp", SA: 0}}},
+		{Name: "otplogin-unconfirmed", Target: Op{K: "otplogin", A: 3, Src: "otp", SA: 3}},
+		{Name: "otplogin-2fa-account", Setup: []Op{login1, {K: "totpvalidate", A: 1, Src: "totp", SA: 1}, {K: "otpadd"}, {K: "logout"}}, Target: Op{K: "otplogin", A: 1, Src: "otp", SA: 1}},
 		{Name: "otplogin-wrong", Target: Op{K: "otplogin", A: 0, Src: "lit", S: "0000-0000"}},
 		{Name: "otpadd", Setup: []Op{login0}, Target: Op{K: "otpadd"}, After: []Op{{K: "newsess"}, {K: "otplogin", A: 0, Src: "otp", SA: 0}}},
 		{Name: "otpclear", Setup: []Op{login0}, Target: Op{K: "otpclear"}},
